@@ -144,8 +144,8 @@ Proof. vm_cast_no_check (eq_refl true). Qed.
 (* a forwarded interrupt / quit is taken by the event loop as that message *)
 Definition sigrecv_ok (s : skel) : bool :=
   match run s, sg s with
-  | RSelect, SgSendInt => existsb (fun e => ekind_beq (fst e) KRt && runpc_beq (run (snd e)) (RFilterCb MkInt) && sigpc_beq (sg (snd e)) SgDone) (steps G s)
-  | RSelect, SgSendQuit => existsb (fun e => ekind_beq (fst e) KRt && runpc_beq (run (snd e)) (RFilterCb MkQuit) && sigpc_beq (sg (snd e)) SgDone) (steps G s)
+  | RSelect, SgSendInt => existsb (fun e => ekind_beq (fst e) KRt && runpc_beq (run (snd e)) (RFilterCb MkInt) && sigpc_beq (sg (snd e)) (if g_sig_stays G then SgWait else SgDone)) (steps G s)
+  | RSelect, SgSendQuit => existsb (fun e => ekind_beq (fst e) KRt && runpc_beq (run (snd e)) (RFilterCb MkQuit) && sigpc_beq (sg (snd e)) (if g_sig_stays G then SgWait else SgDone)) (steps G s)
   | _, _ => true
   end.
 Lemma sigrecv_R : all_states R sigrecv_ok = true.
@@ -161,3 +161,12 @@ Proof.
   intros s Hr Hn. pose proof (all_R _ nosig_R s Hr) as H. unfold nosig_ok in H. rewrite Hn in H.
   cbn [negb orb] in H. destruct (sending (sg s)); [discriminate|reflexivity].
 Qed.
+
+(* the signal handler is there as long as the program is: it is gone only once a termination cause has struck
+   (so a signal that a filter chose to swallow is not the last one the program can take) *)
+Definition handler_alive (s : skel) : bool := match sg s with SgDone => struck s | _ => true end.
+Lemma handler_alive_R : all_states R handler_alive = true.
+Proof. vm_cast_no_check (eq_refl true). Qed.
+Theorem signal_handler_stays : forall s, Reach s -> sg s = SgDone -> struck s = true.
+Proof. intros s Hr Hs. pose proof (all_R _ handler_alive_R s Hr) as H. unfold handler_alive in H. rewrite Hs in H. exact H. Qed.
+
